@@ -73,7 +73,7 @@ Chk == IF AggReplace THEN AllMaps \ {"agg"} ELSE AllMaps
 Mark == /\ CheckInv("UniquePerKey", UniquePerKeyOn(Chk)) /\ CheckInv("AnswerKeyed", AnswerKeyed)
         /\ CheckInv("ExpiredRefused", ExpiredRefused) /\ CheckInv("Prompt", Prompt)
         /\ CheckInv("AttIndexed", AttIndexed) /\ CheckInv("TypeOK", TypeOK)
-        /\ HWMark
 ActOK == /\ CheckInv("NeverReplaced", NeverReplacedOn(Chk))
          /\ CheckInv("OnlyStored", OnlyStoredStep)
+         /\ HWMarkA
 ====
